@@ -795,6 +795,14 @@ def control_battery():
                 "let and while before the first row read the construction answer", answers={0: [2]}, default_answer=[9]))
     b.append(sc("A B Y\nrepeat(Y) (n) 6 X\n", [(0, 6), (1, 6), (2, 6)],
                 "repeat bound read from the device before the first row", answers={0: [3]}, default_answer=[0]))
+    # ninth round: a counter named like the MOST RECENT binding of the enclosing scope shadows it, it does not overwrite it
+    b.append(sc("A B Y\nlet k = 1;\nlet n = 5;\nrepeat(3) (n) 1 X\n(n) (k) X\n", [(0, 1), (1, 1), (2, 1), (5, 1)],
+                "repeat counter named like the last let before it; the let is uncovered afterwards"))
+    b.append(sc("A B Y\nlet k = 0;\nlet m = 0;\nloop(i,2)\nloop(i,3)\n(i) 2 X\nend loop\n(i) 3 X\nend loop\n",
+                [(0, 2), (1, 2), (2, 2), (0, 3), (0, 2), (1, 2), (2, 2), (1, 3)],
+                "inner loop counter named like the outer one, two lets below: the outer counter is uncovered after the inner loop"))
+    b.append(sc("A B Y\nlet a = 7;\nlet i = 9;\nloop(i,2)\n(i) (a) X\nend loop\n(i) (a) X\n", [(0, 7), (1, 7), (9, 7)],
+                "loop counter named like the last let before it"))
     n64 = " ".join("I%d" % i for i in range(64))
     s64_ = [("in", "I%d" % i, 1, 0) for i in range(64)]
     b.append(Scenario("%s\nbits(64, (0-1))\nbits(64, (1<<63))\nbits(64, (~5))\n" % n64, s64_,
